@@ -88,7 +88,117 @@ def c11():
     }
 
 
+HIST_TRUST = COMMON_TRUST + [
+    "hand-written tree/estimator model (Model/Tree.v, Model/Birch.v) tied to bblean/bitbirch.py by "
+    "differential execution only; Python buffer aliasing between old and new trees is exercised, not modelled",
+    "translator-tied kernels: merge criteria, iSIM, centroid (Proofs/GenTie.v)"]
+HIST_RULE = ("random operation histories (fit in 4 input forms / failing fit / refine / recluster with "
+             "shuffle / set_merge / delete_internal_nodes / reset), 3-24 bits, branching 2-7, all six "
+             "criteria, thresholds 0..1, noisy copies of 1-4 prototypes + zero/one/duplicate rows; "
+             "model and implementation compared after every operation; non-trivial = distinct "
+             "history with >= 2 fitted rows")
+
+
+def c01():
+    import suite_hist
+    return {
+        "props_file": "Props/C01.v",
+        "theorems": ["C01_partition", "C01_every_step", "C01_failed_fit", "C01_nonvacuous"],
+        "suites": [suite_hist.suite_hist_api, suite_hist.suite_exhaustive],
+        "search": suite_hist.search_hist("C01"),
+        "replay": suite_hist.replay_hist("C01"),
+        "level": "proof",
+        "rule": HIST_RULE,
+        "trusted": HIST_TRUST,
+        "assumptions": ["histories use default label numbering, one feature count per tree, "
+                        "branching factors >= 2, < 2^64 fingerprints (ops_wf)",
+                        "sparse-matrix input and global_clustering are outside the model"],
+    }
+
+
+def c08():
+    import suite_hist
+    import suite_sub
+    return {
+        "props_file": "Props/C08.v",
+        "theorems": ["C08_wellformed", "C08_meaning", "C08_every_insertion",
+                     "C08_results_from_leaves", "C08_no_wrap_update", "C08_width_matters"],
+        "suites": [suite_hist.suite_tree_walk, suite_hist.suite_boundary,
+                   suite_hist.suite_exhaustive, suite_sub.suite_sub],
+        "search": suite_hist.search_hist("C08"),
+        "replay": suite_hist.replay_hist("C08"),
+        "level": "proof",
+        "rule": HIST_RULE + "; whole internal tree compared (entries, buffers incl. dtype, member "
+                "lists, centroid caches, leaf chain); boundary stream crosses 255->256 members in "
+                "inner entries; sub-unit stream at every width boundary up to 2^40",
+        "trusted": HIST_TRUST,
+        "assumptions": ["private attributes (_root, _subclusters, _buffer, _packed_centroids_buf, "
+                        "_prev_leaf/_next_leaf) are read by the harness; a refactor of those names "
+                        "surfaces as no-failing-input-found"],
+    }
+
+
+def c09():
+    import suite_hist
+    return {
+        "props_file": "Props/C09.v",
+        "theorems": ["C09_recluster", "C09_refine", "C09_fit", "C09_blocks_are_clusters", "C09_units"],
+        "suites": [suite_hist.suite_hist_api],
+        "search": suite_hist.search_hist("C09"),
+        "replay": suite_hist.replay_hist("C09"),
+        "level": "proof",
+        "rule": HIST_RULE,
+        "trusted": HIST_TRUST,
+        "assumptions": ["shuffle results are permutations (recorded from random.shuffle)",
+                        "multi-round half of C09 (rounds only coarsen) is covered by the C05 model"],
+    }
+
+
+def c02():
+    import suite_hist
+    import suite_sub
+    return {
+        "props_file": "Props/C02.v",
+        "theorems": ["C02_exact", "C02_aligned", "C02_merge_exact", "C02_update_exact",
+                     "C02_width_holds_count", "C02_boundary_255"],
+        "suites": [suite_sub.suite_sub, suite_hist.suite_boundary, suite_hist.suite_tree_walk],
+        "search": suite_hist.search_hist("C02"),
+        "replay": suite_hist.replay_hist("C02"),
+        "level": "proof",
+        "rule": HIST_RULE + "; sub-unit stream: _BFSubcluster construct/update/merge with counts in "
+                "{1..3,127,128,254..257,65534..65537,2^32-2..2^32+1,2^40} comparing values and dtype; "
+                "boundary stream: clusters and inner entries crossing 255->256 members",
+        "trusted": HIST_TRUST,
+        "assumptions": ["the X given to refinement is the data that was fitted (op_data)",
+                        "counts >= 2^64 are refused by the real code (checked), out of the model"],
+    }
+
+
+def c03():
+    import suite_hist
+    import suite_merges
+    return {
+        "props_file": "Props/C03.v",
+        "theorems": ["C03_bound", "C03_never_merge", "C03_merge_meets", "C03_not_below_is_ge"],
+        "suites": [suite_hist.suite_hist_api, suite_merges.suite_merges],
+        "search": suite_hist.search_hist("C03"),
+        "replay": suite_hist.replay_hist("C03"),
+        "model_files": ["Model/Obs.v", "Model/ObsBits.v"],
+        "level": "proof",
+        "rule": HIST_RULE + "; plus the merges stream of C10",
+        "trusted": HIST_TRUST,
+        "assumptions": ["custom MergeAcceptFunction objects promise nothing (built-in criteria only)",
+                        "bound stated as 'statistic not below threshold'; equals '>=' for non-NaN "
+                        "statistics (C03_not_below_is_ge; non-NaN proved in the exact regime, C11_exact)"],
+    }
+
+
 SPECS = {
+    "C01": c01,
+    "C02": c02,
+    "C03": c03,
+    "C08": c08,
+    "C09": c09,
     "C10": c10,
     "C11": c11,
     "C12": c12,
